@@ -267,7 +267,8 @@ def run(c):
             if badrec and badrec.get("e") == "layout":
                 w, rr = badrec["w"], badrec["r"]
                 i = next((i for i in range(min(len(w), len(rr))) if w[i] != rr[i]), min(len(w), len(rr)))
-                badrec = {"e": "layout", "first_difference_at_run": i, "written [class,size,count]": w[max(0, i - 2):i + 3],
+                badrec = {"e": "layout", "subgrids_in_memory_when_dumped": badrec.get("nsubw"), "subgrids_after_restart": badrec.get("nsubr"),
+                          "first_difference_at_run": i, "written [class,size,count]": w[max(0, i - 2):i + 3],
                           "read": rr[max(0, i - 2):i + 3], "runs_written": len(w), "runs_read": len(rr)}
             c.violation("restart:%s:config=%s" % (st, name),
                         "histories of configuration %s violate Layer A (%s) at record %s of history %s" % (
